@@ -472,12 +472,14 @@ pub fn unit_qibla(o: &mut Out, tier: &str, r: &mut Rng) {
     for i in 0..n {
         let mut lat = gen_lat(r, 90.);
         let mut lon = gen_lon(r);
-        // one case in four close to where the formula is delicate: rings of 10^-6 .. 3 degrees around the
-        // Kaaba and its antipode, and the Kaaba's meridian / antimeridian
+        // one case in four close to where the formula is delicate: rings of 0.12 .. 3 degrees around the
+        // Kaaba and its antipode (inside 0.1 degree the property exempts the bearing - it is
+        // ill-conditioned there and two correct formulas differ by more than the comparison tolerance),
+        // and the Kaaba's meridian / antimeridian
         match i % 8 {
             1 | 2 => {
                 let (clat, clon) = if i % 8 == 1 { (21.423333, 39.823333) } else { (-21.423333, -140.176667) };
-                let rad = 10f64.powf(r.range(-6., 0.5));
+                let rad = 10f64.powf(r.range(-0.92, 0.5));
                 let th = r.range(0., std::f64::consts::TAU);
                 lat = (clat + rad * th.sin()).clamp(-90., 90.);
                 lon = (clon + rad * th.cos()).clamp(-180., 180.);
